@@ -72,5 +72,19 @@ PROPS = {
         "exhaustive_note": "all frame bodies of length <= 3 (quick) / 4 (thorough) over a 14-byte alphabet; varint prefixes of every byte length",
         "assumptions": ["64-bit usize", "outbound half (C09_outbound_split) is about the server handler model, see Props_C09.v"],
     },
+    "C06": {
+        "engines": [{"name": "server", "n": {"quick": 150, "thorough": 6000}, "profiles": ["debug"], "oracle": "oracle_C06", "shard": 20}],
+        "tie_lemmas": ["tie_max_wantlist_entries"],
+        "rule": """engine server: the server half of Behaviour driven op by op through the public NetworkBehaviour interface (new connection, wantlist message, new blocks, disconnect, release of one store.get call, poll to Pending) with a scripted blockstore whose calls complete only when released, in any order; histories over 1-3 peers x 2-4 CIDs (updates and full wantlists with wants, cancels, duplicates, cancel+want of one CID in one message, undecodable CIDs; hits, misses, failures, unknown call numbers; blocks arriving between registration and completion) driven to quiescence at the end, plus wantlists of 0..1300 (quick) / 5000 (thorough) entries, full and update. After every op the outputs (store calls started, QueueOutgoingMessages per peer) and a snapshot of the server state are compared with the model; the oracle folds the Bitswap reference view over the op history and the implementation's outputs only. Every history is non-trivial; distinct = distinct op lists.""",
+        "assumptions": ["32 <= S <= 255", "A-STORE (healthy blockstore) is not needed by the theorems: store answers are inputs",
+                        "the reference view contains the 1024 cap of C13 (C06_cap_refuted shows a want beyond it is dropped)",
+                        "the server handler's delivery of the queued blocks to the wire is C09-outbound/C14 territory, not C06"],
+    },
+    "C07": {
+        "engines": [{"name": "server", "n": {"quick": 150, "thorough": 6000}, "profiles": ["debug"], "oracle": "oracle_C07", "shard": 20}],
+        "tie_lemmas": ["tie_max_wantlist_entries"],
+        "rule": """engine server: the server half of Behaviour driven op by op through the public NetworkBehaviour interface (new connection, wantlist message, new blocks, disconnect, release of one store.get call, poll to Pending) with a scripted blockstore whose calls complete only when released, in any order; histories over 1-3 peers x 2-4 CIDs (updates and full wantlists with wants, cancels, duplicates, cancel+want of one CID in one message, undecodable CIDs; hits, misses, failures, unknown call numbers; blocks arriving between registration and completion) driven to quiescence at the end, plus wantlists of 0..1300 (quick) / 5000 (thorough) entries, full and update. After every op the outputs (store calls started, QueueOutgoingMessages per peer) and a snapshot of the server state are compared with the model; the oracle folds the Bitswap reference view over the op history and the implementation's outputs only. Every history is non-trivial; distinct = distinct op lists.""",
+        "assumptions": ["32 <= S <= 255"],
+    },
 }
 NOT_CLAIMED = {}
